@@ -160,7 +160,7 @@ theorem cmpTest_err {env : Env} {c : Cmp} {l r : Val} {e : Panic}
 
 theorem comparator_err {env : Env} {c : Cmp} {r : Val} {cells : List Cell} {e : Panic}
     (h : comparator env c r cells = .error e) : e = cmpErr c := by
-  induction cells with
+  induction cells generalizing e with
   | nil => simp [comparator] at h
   | cons cell cs ih =>
     cases ht : comparator env c r cs with
@@ -178,6 +178,204 @@ theorem comparator_err {env : Env} {c : Cmp} {r : Val} {cells : List Cell} {e : 
           simp [comparator, ht, hv, bind, Except.bind] at h
           rw [← h]; exact cmpTest_err hv
         | ok b => cases b <;> simp [comparator, ht, hv, bind, Except.bind] at h
+
+theorem cellTest_val (env : Env) (c : Cmp) (v r : Val) :
+    cellTest env (cmpRec c).test (cmpRe c) (.val v) r = cmpTest env c v r := by
+  rw [cmpTest_eq]; rfl
+
+/-- the hand-written comparator loop (which recurses into the tail first) is the forward loop
+    over the regenerated record -/
+theorem comparator_eq_run (env : Env) (c : Cmp) (r : Val) (cells : List Cell) :
+    comparator env c r cells = runCmp env (cmpRec c) (cmpRe c) r cells := by
+  induction cells with
+  | nil => rfl
+  | cons cell cs ih =>
+    cases cell with
+    | empty =>
+      have hrun : runCmp env (cmpRec c) (cmpRe c) r (Cell.empty :: cs) =
+          (if (cmpRec c).skipMarker then do
+              let t ← runCmp env (cmpRec c) (cmpRe c) r cs
+              Except.ok (t.1, Cell.empty :: t.2.1, t.2.2)
+           else do
+              let b ← cellTest env (cmpRec c).test (cmpRe c) Cell.empty r
+              let br := if b then (cmpRec c).thenB else (cmpRec c).elseB
+              let t ← runCmp env (cmpRec c) (cmpRe c) r cs
+              Except.ok (br.setHas || t.1, (if br.blank then Cell.empty else Cell.empty) :: t.2.1,
+                t.2.2 + (if br.blank then 1 else 0))) := by
+        cases hs : (cmpRec c).skipMarker <;> simp [runCmp, hs, Cell.isEmpty]
+      rw [hrun, ← ih]
+      cases ht : comparator env c r cs with
+      | error e1 =>
+        cases c <;>
+          simp [comparator, ht, bind, Except.bind, cmpRec, cellTest,
+            Gen.Comparators.directEQ, Gen.Comparators.deepEQ, Gen.Comparators.lt, Gen.Comparators.le,
+            Gen.Comparators.gt, Gen.Comparators.ge, Gen.Comparators.regex]
+      | ok t =>
+        obtain ⟨f, cs', w⟩ := t
+        cases c <;>
+          simp [comparator, ht, bind, Except.bind, cmpRec, cellTest,
+            Gen.Comparators.directEQ, Gen.Comparators.deepEQ, Gen.Comparators.lt, Gen.Comparators.le,
+            Gen.Comparators.gt, Gen.Comparators.ge, Gen.Comparators.regex]
+    | val v =>
+      have hskip : ((cmpRec c).skipMarker && (Cell.val v).isEmpty) = false := by simp [Cell.isEmpty]
+      have hrun : runCmp env (cmpRec c) (cmpRe c) r (Cell.val v :: cs) =
+          (do
+            let b ← cmpTest env c v r
+            let br := if b then (cmpRec c).thenB else (cmpRec c).elseB
+            let t ← runCmp env (cmpRec c) (cmpRe c) r cs
+            Except.ok (br.setHas || t.1, (if br.blank then Cell.empty else Cell.val v) :: t.2.1,
+              t.2.2 + (if br.blank then 1 else 0))) := by
+        rw [← cellTest_val]; simp [runCmp, hskip]
+      rw [hrun, ← ih]
+      have hbr : (cmpRec c).thenB = ⟨true, false⟩ ∧ (cmpRec c).elseB = ⟨false, true⟩ := by
+        cases c <;> exact ⟨rfl, rfl⟩
+      cases hv : cmpTest env c v r with
+      | error e2 =>
+        cases ht : comparator env c r cs with
+        | error e1 =>
+          have h1 := comparator_err ht
+          have h2 := cmpTest_err hv
+          simp [comparator, ht, bind, Except.bind, h1, h2]
+        | ok t =>
+          obtain ⟨f, cs', w⟩ := t
+          simp [comparator, ht, hv, bind, Except.bind]
+      | ok b =>
+        cases ht : comparator env c r cs with
+        | error e1 => simp [comparator, ht, bind, Except.bind]
+        | ok t =>
+          obtain ⟨f, cs', w⟩ := t
+          cases b <;> simp [comparator, ht, hv, bind, Except.bind, hbr.1, hbr.2]
+
+/-! ### operand ordering -/
+section OperandOrder
+open Gen.OperandOrder Build
+
+/-- split two abstract operands into their 14 × 14 concrete shapes (the `src` fields stay symbolic) -/
+macro "oo_split" a:ident b:ident : tactic =>
+  `(tactic| (rcases $a:ident with ⟨(_|_|_|_|_)|_|_, _|_, sa⟩ <;> rcases $b:ident with ⟨(_|_|_|_|_)|_|_, _|_, sb⟩))
+
+macro "oo_pushes" ha:ident hb:ident : tactic =>
+  `(tactic| first | exact ⟨_, rfl⟩ | (simp [Opnd.known] at $ha:ident; done) | (simp [Opnd.known] at $hb:ident; done))
+
+theorem pushCompareEQ_pushes (n : Nat) (a b : Opnd) (ha : a.known = true) (hb : b.known = true) (stk : Stack) :
+    ∃ t, pushCompareEQ (n + 3) a b stk = .ok (t :: stk) := by
+  oo_split a b <;> oo_pushes ha hb
+theorem pushCompareNE_pushes (n : Nat) (a b : Opnd) (ha : a.known = true) (hb : b.known = true) (stk : Stack) :
+    ∃ t, pushCompareNE (n + 3) a b stk = .ok (t :: stk) := by
+  oo_split a b <;> oo_pushes ha hb
+theorem pushCompareGE_pushes (n : Nat) (a b : Opnd) (stk : Stack) :
+    ∃ t, pushCompareGE (n + 3) a b stk = .ok (t :: stk) := by
+  oo_split a b <;> exact ⟨_, rfl⟩
+theorem pushCompareGT_pushes (n : Nat) (a b : Opnd) (stk : Stack) :
+    ∃ t, pushCompareGT (n + 3) a b stk = .ok (t :: stk) := by
+  oo_split a b <;> exact ⟨_, rfl⟩
+theorem pushCompareLE_pushes (n : Nat) (a b : Opnd) (stk : Stack) :
+    ∃ t, pushCompareLE (n + 3) a b stk = .ok (t :: stk) := by
+  oo_split a b <;> exact ⟨_, rfl⟩
+theorem pushCompareLT_pushes (n : Nat) (a b : Opnd) (stk : Stack) :
+    ∃ t, pushCompareLT (n + 3) a b stk = .ok (t :: stk) := by
+  oo_split a b <;> exact ⟨_, rfl⟩
+
+/-- no operand pair — not even one with a literal of an unforeseen type — makes the procedures
+    call each other more than twice -/
+theorem pushCompareEQ_no_loop (n : Nat) (a b : Opnd) (stk : Stack) :
+    isOutOfFuel (pushCompareEQ (n + 3) a b stk) = false := by
+  oo_split a b <;> first | rfl | (cases stk <;> rfl)
+theorem pushCompareNE_no_loop (n : Nat) (a b : Opnd) (stk : Stack) :
+    isOutOfFuel (pushCompareNE (n + 3) a b stk) = false := by
+  oo_split a b <;> first | rfl | (cases stk <;> rfl)
+theorem pushCompareGE_no_loop (n : Nat) (a b : Opnd) (stk : Stack) :
+    isOutOfFuel (pushCompareGE (n + 3) a b stk) = false := by
+  oo_split a b <;> first | rfl | (cases stk <;> rfl)
+theorem pushCompareGT_no_loop (n : Nat) (a b : Opnd) (stk : Stack) :
+    isOutOfFuel (pushCompareGT (n + 3) a b stk) = false := by
+  oo_split a b <;> first | rfl | (cases stk <;> rfl)
+theorem pushCompareLE_no_loop (n : Nat) (a b : Opnd) (stk : Stack) :
+    isOutOfFuel (pushCompareLE (n + 3) a b stk) = false := by
+  oo_split a b <;> first | rfl | (cases stk <;> rfl)
+theorem pushCompareLT_no_loop (n : Nat) (a b : Opnd) (stk : Stack) :
+    isOutOfFuel (pushCompareLT (n + 3) a b stk) = false := by
+  oo_split a b <;> first | rfl | (cases stk <;> rfl)
+
+/-- the list of procedures the generator found is the six expected ones -/
+theorem procedures_names :
+    procedures.map (·.1) =
+      ["pushCompareEQ", "pushCompareNE", "pushCompareGE", "pushCompareGT", "pushCompareLE", "pushCompareLT"] := by
+  decide
+
+/-- the same fact as a computation, so that a failure can be inspected with
+    `#eval looping Gen.OperandOrder.procedures 3` -/
+theorem looping_none : looping procedures 3 = [] := by decide
+
+macro "oo_close" hl:ident hr:ident : tactic =>
+  `(tactic| first | (simp [litParsed] at $hl:ident; done) | (simp [litParsed] at $hr:ident; done) | exact ⟨_, rfl, rfl⟩)
+
+theorem pushCompareEQ_agrees (n : Nat) (l r : P) (hl : litParsed l = true) (hr : litParsed r = true) (stk : Stack) :
+    ∃ t, pushCompareEQ (n + 3) (opndOfP .fst l) (opndOfP .snd r) stk = .ok (t :: stk) ∧
+      qOfTag? l r t = some (mkEq l r) := by
+  cases l with
+  | lit v =>
+    cases r with
+    | lit w => cases v <;> cases w <;> oo_close hl hr
+    | proot ch => cases v <;> oo_close hl hr
+    | pcur ch => cases v <;> oo_close hl hr
+  | proot ch =>
+    cases r with
+    | lit w => cases w <;> oo_close hl hr
+    | proot ch => oo_close hl hr
+    | pcur ch => oo_close hl hr
+  | pcur ch =>
+    cases r with
+    | lit w => cases w <;> oo_close hl hr
+    | proot ch => oo_close hl hr
+    | pcur ch => oo_close hl hr
+
+theorem pushCompareNE_agrees (n : Nat) (l r : P) (hl : litParsed l = true) (hr : litParsed r = true) (stk : Stack) :
+    ∃ t, pushCompareNE (n + 3) (opndOfP .fst l) (opndOfP .snd r) stk = .ok (t :: stk) ∧
+      qOfTag? l r t = some (.not (mkEq l r)) := by
+  cases l with
+  | lit v =>
+    cases r with
+    | lit w => cases v <;> cases w <;> oo_close hl hr
+    | proot ch => cases v <;> oo_close hl hr
+    | pcur ch => cases v <;> oo_close hl hr
+  | proot ch =>
+    cases r with
+    | lit w => cases w <;> oo_close hl hr
+    | proot ch => oo_close hl hr
+    | pcur ch => oo_close hl hr
+  | pcur ch =>
+    cases r with
+    | lit w => cases w <;> oo_close hl hr
+    | proot ch => oo_close hl hr
+    | pcur ch => oo_close hl hr
+
+theorem pushCompareLT_agrees (n : Nat) (l r : P) (stk : Stack) :
+    ∃ t, pushCompareLT (n + 3) (opndOfP .fst l) (opndOfP .snd r) stk = .ok (t :: stk) ∧
+      qOfTag? l r t = some (mkOrd .lt l r) := by
+  cases l <;> cases r <;> exact ⟨_, rfl, rfl⟩
+theorem pushCompareLE_agrees (n : Nat) (l r : P) (stk : Stack) :
+    ∃ t, pushCompareLE (n + 3) (opndOfP .fst l) (opndOfP .snd r) stk = .ok (t :: stk) ∧
+      qOfTag? l r t = some (mkOrd .le l r) := by
+  cases l <;> cases r <;> exact ⟨_, rfl, rfl⟩
+theorem pushCompareGT_agrees (n : Nat) (l r : P) (stk : Stack) :
+    ∃ t, pushCompareGT (n + 3) (opndOfP .fst l) (opndOfP .snd r) stk = .ok (t :: stk) ∧
+      qOfTag? l r t = some (mkOrd .gt l r) := by
+  cases l <;> cases r <;> exact ⟨_, rfl, rfl⟩
+theorem pushCompareGE_agrees (n : Nat) (l r : P) (stk : Stack) :
+    ∃ t, pushCompareGE (n + 3) (opndOfP .fst l) (opndOfP .snd r) stk = .ok (t :: stk) ∧
+      qOfTag? l r t = some (mkOrd .ge l r) := by
+  cases l <;> cases r <;> exact ⟨_, rfl, rfl⟩
+
+/-- what `pushCompareEQ` does with a literal of a type it has no `case` for (its type switch has
+    no `default`): nothing is pushed. Not reachable from the grammar — recorded, not relied upon. -/
+theorem pushCompareEQ_other (n : Nat) (a : Opnd) (il : Bool) (s : Side) (stk : Stack) :
+    pushCompareEQ (n + 3) a ⟨.literal .other, il, s⟩ stk = .ok stk ∨
+    ∃ t, pushCompareEQ (n + 3) a ⟨.literal .other, il, s⟩ stk = .ok (t :: stk) := by
+  rcases a with ⟨(_|_|_|_|_)|_|_, _|_, sa⟩ <;> cases il <;>
+    first | exact .inl rfl | exact .inr ⟨_, rfl⟩
+
+end OperandOrder
 
 end Ties
 end JPV
